@@ -257,6 +257,24 @@ def check_slicing(ctx, p, rng, origin):
             ctx.violation('__getitem__', lcfg, 'raises:' + type(e).__name__, message=str(e)[:200], idx=str(lst_given))
 
 
+def check_index_refusal(ctx, p, rng, origin):
+    """An integer index outside [-n, n) selects no cell: it must be refused (IndexError), never answered with another cell."""
+    shape = p.shape
+    ax = int(rng.integers(0, p.ndim))
+    n = shape[ax]
+    for bad in (n, n + 3, -n - 1, -n - 2, -2 * n - 1):
+        expr = tuple(bad if a == ax else slice(None) for a in range(p.ndim))
+        ctx.ev('slice-model')
+        try:
+            sub = p[expr] if p.ndim > 1 else p[bad]
+        except IndexError:
+            continue
+        except Exception as e:
+            ctx.violation('__getitem__', origin + ';int-out-of-range', 'wrong-exception:' + type(e).__name__, idx=str(expr), message=str(e)[:200])
+            continue
+        ctx.violation('__getitem__', origin + ';int-out-of-range', 'bad-input-accepted', idx=str(expr), n=n, got=util.srepr(sub, 100))
+
+
 def check_structure_ops(ctx, p, rng, origin):
     nd = p.ndim
     shape = p.shape
@@ -497,6 +515,7 @@ def run_uniform(ctx, hook):
                         hook.origin = 'derived'
                         check_index(ctx, p, rng, 'uniform')
                         check_slicing(ctx, p, rng, 'uniform')
+                        check_index_refusal(ctx, p, rng, 'uniform')
                         check_structure_ops(ctx, p, rng, 'uniform')
                         check_multipart(ctx, p, rng, 'uniform')
                         check_private_state(ctx, p, rng, 'uniform')
@@ -593,6 +612,7 @@ def run_nonuniform(ctx, hook):
             hook.origin = 'derived'
             check_index(ctx, q, rng, 'nonuniform')
             check_slicing(ctx, q, rng, 'nonuniform')
+            check_index_refusal(ctx, q, rng, 'nonuniform')
             check_structure_ops(ctx, q, rng, 'nonuniform')
             check_multipart(ctx, q, rng, 'nonuniform')
             check_private_state(ctx, q, rng, 'nonuniform')
